@@ -149,6 +149,21 @@ sim_free(void *p, size_t sz)
 	}
 	A.live_bytes -= (int64_t) it->second.size;
 	sim_debug("free #%lld %zuB", (long long) it->second.seq, sz);
+	{
+		static long watch = -2;
+		if (watch == -2) {
+			const char *w = getenv("SIM_WATCH_ALLOC");
+			watch = w ? atol(w) : -1;
+		}
+		if (watch >= 0 && it->second.seq == watch) {
+			void *fr[NFRAMES];
+			walk(fr);
+			fprintf(stderr, "WATCH free of alloc #%ld at", watch);
+			for (int k = 0; k < NFRAMES && fr[k]; k++)
+				fprintf(stderr, " %p", fr[k]);
+			fprintf(stderr, "\n");
+		}
+	}
 	A.live->erase(it);
 	sched_trace(EV_ALLOC, (uint32_t) sz, 2);
 	free(p);
